@@ -5,7 +5,7 @@ import core
 from core import hx, gen_mag
 
 ID = "C18"
-READY = False
+READY = True
 ORACLE = "c18"
 HARNESS_BIN = "c18"
 NCASES = {"quick": 9000, "thorough": 200000}
